@@ -35,6 +35,16 @@ def spec_call(ex, name, e, env):
         env2.update(dict(zip(names, vs)))
         body = ex.truth(ex.ev(e.args[1], env2))
         return z3.ForAll(vs, body) if name == "forall" else z3.Exists(vs, body)
+    if name == "lam":
+        # lam(t, expr): the function t -> expr as a z3 array (ghost maps)
+        names = _bound(ex, e.args[0])
+        vs = [z3.Int(f"{n}!lam{id(e) % 100000}") for n in names]
+        env2 = dict(env)
+        env2.update(dict(zip(names, vs)))
+        return z3.Lambda(vs, lift(ex.ev(e.args[1], env2)))
+    if name == "app":
+        f = ex.ev(e.args[0], env)
+        return z3.Select(f, *[to_int(lift(ex.ev(a, env))) for a in e.args[1:]])
     if name == "implies":
         a = ex.truth(ex.ev(e.args[0], env))
         if z3.is_false(z3.simplify(a)):
@@ -390,6 +400,8 @@ def sorted_model(ex, v, rev, node):
     s = ex.as_seq(v)
     t, u = fresh("t"), fresh("u")
     el = lift(s.elem(t))
+    if not is_z3(el):
+        raise Unsupported("sorted() of a sequence of non-scalars")
     es = "real" if is_real(el) else "int"
     out = AList(s.n, fresh("sorted", z3.ArraySort(I, sort_of(es))), es)
     p = fresh("perm", z3.ArraySort(I, I))
